@@ -7,9 +7,9 @@ cd $wt || exit 2
 git diff -- diskcache > patch.diff
 [ -s patch.diff ] || { echo "empty patch"; exit 2; }
 PYTHONPATH=$wt timeout 300 /venv/bin/python demo.py >/tmp/seed_$name.with.log 2>&1; with=$?
-git stash -q -- diskcache
+git apply -R patch.diff
 PYTHONPATH=$wt timeout 300 /venv/bin/python demo.py >/tmp/seed_$name.without.log 2>&1; without=$?
-git stash pop -q
+git apply patch.diff
 PYTHONPATH=$wt timeout 900 /venv/bin/python -m pytest -q -p no:cacheprovider --timeout=900 -x --deselect tests/test_djangocache.py::DiskCacheTests::test_cache_write_for_model_instance_with_deferred >/tmp/seed_$name.suite.log 2>&1; suite=$?
 echo "$name demo_with=$with demo_without=$without suite=$suite $(grep -E 'passed|failed' /tmp/seed_$name.suite.log | tail -1)"
 if [ $with -ne 0 ] && [ $without -eq 0 ] && [ $suite -eq 0 ]; then
